@@ -191,6 +191,10 @@ Definition uc_consistentb (lk : lookups) (wanted : list proto) (hs : list (list 
   forallb (uc_effective_consistentb (nqueries (scan_types wanted))) hs &&
   items_consistentb lk (uc_items lk wanted hs).
 
+Definition uc_burst_consistentb (lk : lookups) (wanted : list proto) (hs : list (list dgram)) : bool :=
+  forallb (fun h => host_consistentb (msgs h)) hs &&
+  items_consistentb lk (uc_burst_items lk wanted hs).
+
 (* ------------------------------------------------------------ correspondence run: model = implementation, and
    scenarios generated as "self-consistent" satisfy the hypothesis of the theorems *)
 Definition check_case_full (tm ti : list (str * N)) (claimed_consistent : bool) (c : case) : bool :=
@@ -199,5 +203,7 @@ Definition check_case_full (tm ti : list (str * N)) (claimed_consistent : bool) 
      match k_hist c with
      | HMulti h => mc_consistentb (table_lk tm ti) (k_wanted c) h
      | HUni hs => uc_consistentb (table_lk tm ti) (k_wanted c) hs
+     | HMultiBurst h => mc_consistentb (table_lk tm ti) (k_wanted c) h
+     | HUniBurst hs => uc_burst_consistentb (table_lk tm ti) (k_wanted c) hs
      end
    else true).
